@@ -1,11 +1,16 @@
 package main
 
 import (
+	"bufio"
 	"bytes"
 	"encoding/json"
 	"fmt"
+	"io"
+	"math/rand"
 	"net/http"
 	"net/http/httptest"
+	"os"
+	"os/exec"
 	"strings"
 
 	g "github.com/zenon-network/go-zenon/chain/genesis/mock"
@@ -23,7 +28,49 @@ import (
 // ---------------------------------------------------------------------------------------------------
 
 func init() {
+	// the server runs in a CHILD process: a panic outside the server's own recover (e.g. while decoding parameters on a
+	// connection goroutine) terminates that process, which is exactly what the property forbids; the parent reports the
+	// request that was being served
 	register("rpcserver", func(c *Ctx) {
+		cmd := exec.Command(os.Args[0], "rpcserver-child", fmt.Sprint(c.Seed), fmt.Sprint(c.N))
+		out, err := cmd.Output()
+		last := "<none>"
+		finished := false
+		for _, line := range strings.Split(string(out), "\n") {
+			switch {
+			case strings.HasPrefix(line, "REQ "):
+				last = line[4:]
+			case strings.HasPrefix(line, "HIT "):
+				c.Hit(line[4:])
+			case strings.HasPrefix(line, "FAIL "):
+				c.Fail("%s", line[5:])
+			case line == "CHILD-FINISHED":
+				finished = true
+			}
+		}
+		if err != nil || !finished {
+			c.Fail("C18: the JSON-RPC server process terminated (%v) while serving the request [%s]", err, last)
+			return
+		}
+		c.Emit("rpcserver-survived | ok")
+	})
+}
+
+func rpcServerChild(seed int64, nreq int) {
+	c := &Ctx{R: rand.New(rand.NewSource(seed)), Seed: seed, N: nreq, w: bufio.NewWriter(io.Discard), Stats: map[string]int{}}
+	defer func() {
+		for k, v := range c.Stats {
+			for i := 0; i < v; i++ {
+				fmt.Println("HIT " + k)
+			}
+		}
+		for _, f := range c.Fails {
+			fmt.Println("FAIL " + f)
+		}
+		fmt.Println("CHILD-FINISHED")
+		os.Stdout.Sync()
+	}()
+	func() {
 		n := NewNode()
 		defer n.Stop()
 		produceTraffic(c, n, 40)
@@ -36,7 +83,7 @@ func init() {
 		}
 		must(srv.RegisterName("ledger", api.NewLedgerApi(n.Z)))
 		must(srv.RegisterName("embedded.token", embedded.NewTokenApi(n.Z)))
-		must(srv.RegisterName("embedded.pillar", embedded.NewPillarApi(n.Z, false)))
+		must(srv.RegisterName("embedded.pillar", embedded.NewPillarApi(n.Z, true)))
 		must(srv.RegisterName("embedded.plasma", embedded.NewPlasmaApi(n.Z)))
 		must(srv.RegisterName("embedded.stake", embedded.NewStakeApi(n.Z)))
 
@@ -52,6 +99,8 @@ func init() {
 			return
 		}
 		H := n.Height()
+		fmo, _ := n.Chain().GetFrontierMomentumStore().GetFrontierMomentum()
+		frontierHash := fmo.Hash.String()
 		healthy := func(after string) bool {
 			code, resp, p := post([]byte(`{"jsonrpc":"2.0","id":7,"method":"ledger.getFrontierMomentum","params":[]}`), "application/json")
 			var out struct {
@@ -76,10 +125,19 @@ func init() {
 			`{"jsonrpc":"2.0","id":4,"method":"embedded.token.getAll","params":[0,10]}`,
 			`{"jsonrpc":"2.0","id":5,"method":"embedded.pillar.getAll","params":[0,10]}`,
 			`{"jsonrpc":"2.0","id":6,"method":"ledger.getMomentumsByHeight","params":[1,3]}`,
+			`{"jsonrpc":"2.0","id":8,"method":"ledger.getMomentumByHash","params":["` + frontierHash + `"]}`,
+			`{"jsonrpc":"2.0","id":9,"method":"ledger.getAccountBlockByHash","params":["` + frontierHash + `"]}`,
+		}
+		hexOf := func(k int) string {
+			b := make([]byte, k)
+			for i := range b {
+				b[i] = "0123456789abcdef"[c.R.Intn(16)]
+			}
+			return string(b)
 		}
 		mutate := func(s string) string {
 			b := []byte(s)
-			switch c.R.Intn(14) {
+			switch c.R.Intn(18) {
 			case 0:
 				return s[:c.R.Intn(len(s))] // truncated
 			case 1:
@@ -107,8 +165,12 @@ func init() {
 				return strings.Replace(s, addr, "z1"+strings.Repeat("q", c.R.Intn(60)), 1)
 			case 12:
 				return strings.Replace(s, `"params":[`, `"params":[null,`, 1)
-			default:
+			case 13:
 				return strings.Replace(s, `"id":`, `"id":{"x":[1,2,{"y":null}]},"idx":`, 1)
+			default:
+				// hash parameters of every length around 64 hex characters, and much longer
+				k := []int{0, 1, 2, 62, 63, 64, 65, 66, 67, 68, 96, 128, 129, 1000, 100000}[c.R.Intn(15)]
+				return strings.Replace(s, frontierHash, hexOf(k), 1)
 			}
 		}
 		garbage := func() []byte {
@@ -140,8 +202,10 @@ func init() {
 			if c.R.Intn(20) == 0 {
 				ctype = "text/plain"
 			}
+			desc := fmt.Sprintf("%s len=%d %.160q", kind, len(body), string(body))
+			fmt.Println("REQ " + desc)
+			os.Stdout.Sync()
 			code, resp, p := post(body, ctype)
-			desc := fmt.Sprintf("%s len=%d %.60q", kind, len(body), string(body))
 			if p != "" {
 				c.Fail("C18: the JSON-RPC server panicked on request [%s]: %s", desc, p)
 				return
@@ -168,6 +232,5 @@ func init() {
 			}
 		}
 		healthy("end")
-		c.Emit("rpcserver-survived | ok")
-	})
+	}()
 }
